@@ -19,6 +19,7 @@ import (
 	apiext "github.com/koordinator-sh/koordinator/apis/extension"
 	schedulingv1alpha1 "github.com/koordinator-sh/koordinator/apis/scheduling/v1alpha1"
 	koordfeatures "github.com/koordinator-sh/koordinator/pkg/features"
+	reservationutil "github.com/koordinator-sh/koordinator/pkg/util/reservation"
 )
 
 // C19 (device part, extension 5) harness `devadapt`: the WRITE side of the device-allocated annotation.
@@ -211,6 +212,10 @@ func TestVerifC19DevAdapt(t *testing.T) {
 				h.Tag("pod:hami-core")
 			}
 			genItems(p)
+			if r.Chance(1, 4) {
+				p.isResv = true // the holder is a Reservation: Reserve(reserve pod) + PreBindReservation write on the Reservation object
+				h.Tag("holder:reservation")
+			}
 			pods[id] = p
 			h.Op("%s", p.opLine(inv.busIdx))
 		}
@@ -220,6 +225,9 @@ func TestVerifC19DevAdapt(t *testing.T) {
 		plg.nodeDeviceCache = live
 		apiServer := map[int]*corev1.Pod{}
 		carried := map[int]*corev1.Pod{} // the object of a pod whose earlier attempt failed: it re-enters annotated
+		carriedResv := map[int]*schedulingv1alpha1.Reservation{}
+		w := &c19World{resv: map[int]*schedulingv1alpha1.Reservation{}, goneResv: map[int]*schedulingv1alpha1.Reservation{},
+			termResv: map[int]*schedulingv1alpha1.Reservation{}}
 		gone := map[int]*corev1.Pod{}
 		var liveSnap *c19Snap
 		inSet := func(in bool) []int {
@@ -243,10 +251,21 @@ func TestVerifC19DevAdapt(t *testing.T) {
 			case (k < 6 || len(present) == 0) && len(absent) > 0: // ---- a scheduling cycle for an absent pod
 				id := absent[r.Intn(len(absent))]
 				p := pods[id]
-				obj := carried[id]
-				if obj == nil {
+				var obj *corev1.Pod                    // the pod the cycle schedules (for a Reservation: its reserve pod)
+				var rv *schedulingv1alpha1.Reservation // non-nil: the object PreBindReservation writes on
+				retried := false
+				if p.isResv {
+					if rv = carriedResv[id]; rv == nil {
+						rv = c19PersistResv(h, p, false) // Pending, not annotated
+					} else {
+						retried = true
+					}
+				} else if obj = carried[id]; obj == nil {
 					obj = p.base.DeepCopy()
 				} else {
+					retried = true
+				}
+				if retried {
 					h.Tag("bind:object-already-annotated")
 					if r.Chance(2, 3) {
 						// the retry allocates something else (another GPU, another amount): the object still carries the
@@ -259,6 +278,15 @@ func TestVerifC19DevAdapt(t *testing.T) {
 						}
 					}
 				}
+				var holder metav1.Object = obj
+				if rv != nil {
+					h.Guard(func() { obj = reservationutil.NewReservePod(rv) })
+					if obj == nil || obj.Name != c19PodName(p.id) || obj.Namespace != "default" {
+						h.Fail("C19:dev-harness-reserve-pod", "reserve pod of reservation %d is not default/%s", p.id, c19PodName(p.id))
+						continue
+					}
+					holder = rv
+				}
 				state := &preFilterState{allocationResult: p.allocs()}
 				cycle := framework.NewCycleState()
 				cycle.Write(stateKey, state)
@@ -269,7 +297,13 @@ func TestVerifC19DevAdapt(t *testing.T) {
 					h.Fail("C19:dev-adapt-reserve-failed", "Reserve failed for pod %d (panic=%v)", id, panicked)
 				}
 				liveSnap = c19Observe(h, live, inv, true)
-				panicked = h.Guard(func() { st2 = plg.PreBind(context.TODO(), cycle, obj, nodeName) })
+				panicked = h.Guard(func() {
+					if rv != nil {
+						st2 = plg.PreBindReservation(context.TODO(), cycle, rv, nodeName)
+					} else {
+						st2 = plg.PreBind(context.TODO(), cycle, obj, nodeName)
+					}
+				})
 				syncNode()
 				preBound := !panicked && st2.IsSuccess()
 				if panicked {
@@ -278,13 +312,13 @@ func TestVerifC19DevAdapt(t *testing.T) {
 				// ---- oracle (persist): what PreBind left on the object decodes to exactly what Reserve accounted; the
 				// adapters did not touch what Unreserve will give back
 				want := p.allocs()
-				if _, has := obj.Annotations[apiext.AnnotationDeviceAllocated]; has || preBound {
-					got, gerr := apiext.GetDeviceAllocations(obj.Annotations)
+				if preBound { // only an object whose PreBind succeeded can get bound
+					got, gerr := apiext.GetDeviceAllocations(holder.GetAnnotations())
 					if gerr != nil {
 						h.Fail("C19:dev-prebind-persisted-differs", "pod %d: device-allocated annotation unreadable after PreBind", id)
 					} else if d := c19AllocsDiff(want, got); d != "" {
 						h.Fail("C19:dev-prebind-persisted-differs", "pod %d (vendor %s, gate %v): Reserve accounted %s but PreBind persisted %q: %s",
-							id, vd.name, gate, c19aShow(want), obj.Annotations[apiext.AnnotationDeviceAllocated], d)
+							id, vd.name, gate, c19aShow(want), holder.GetAnnotations()[apiext.AnnotationDeviceAllocated], d)
 					}
 				}
 				if d := c19AllocsDiff(want, state.allocationResult); d != "" && !panicked {
@@ -311,7 +345,24 @@ func TestVerifC19DevAdapt(t *testing.T) {
 					} else {
 						liveSnap = c19Observe(h, live, inv, true)
 					}
-					carried[id] = obj
+					if rv != nil {
+						carriedResv[id] = rv
+					} else {
+						carried[id] = obj
+					}
+					continue
+				}
+				delete(gone, id)
+				if rv != nil {
+					rv.Status.NodeName = nodeName
+					rv.Status.Phase = schedulingv1alpha1.ReservationAvailable
+					w.resv[id] = rv.DeepCopy()
+					delete(w.goneResv, id)
+					delete(carriedResv, id)
+					h.Guard(func() { apiServer[id] = reservationutil.NewReservePod(rv) })
+					if apiServer[id] == nil {
+						apiServer[id] = obj
+					}
 					continue
 				}
 				obj.Spec.NodeName = nodeName
@@ -323,13 +374,26 @@ func TestVerifC19DevAdapt(t *testing.T) {
 			case k < 8 && len(present) > 0: // ---- delete event
 				id := present[r.Intn(len(present))]
 				obj := apiServer[id].DeepCopy()
-				delObj, tomb := c19DeleteObj(h, r, obj)
+				rv := w.resv[id]
+				var delObj interface{}
+				var tomb bool
+				if rv != nil {
+					delObj, tomb = c19ResvDeleteObj(h, r, rv.DeepCopy())
+				} else {
+					delObj, tomb = c19DeleteObj(h, r, obj)
+				}
 				via := 1
 				if tomb {
 					via = 3
 				}
 				h.Op("dev del %d %d", id, via)
-				if h.Guard(func() { c19Handler(live).OnDelete(delObj) }) {
+				if h.Guard(func() {
+					if rv != nil {
+						c19Chain(live).OnDelete(delObj)
+					} else {
+						c19Handler(live).OnDelete(delObj)
+					}
+				}) {
 					h.Obs("panic")
 					liveSnap = &c19Snap{panicked: true, lines: []string{"panic"}}
 				} else {
@@ -337,12 +401,23 @@ func TestVerifC19DevAdapt(t *testing.T) {
 				}
 				gone[id] = obj
 				delete(apiServer, id)
-				_ = podIdx.Delete(obj)
+				if rv != nil {
+					w.goneResv[id] = rv.DeepCopy()
+					delete(w.resv, id)
+				} else {
+					_ = podIdx.Delete(obj)
+				}
 			case len(present) > 0: // ---- the bound pod's own update event (the live scheduler sees its patch + bind)
 				id := present[r.Intn(len(present))]
 				h.Op("dev upd %d", id)
 				old, cur := apiServer[id].DeepCopy(), apiServer[id].DeepCopy()
-				if h.Guard(func() { live.onPodUpdate(old, cur) }) {
+				if h.Guard(func() {
+					if rv := w.resv[id]; rv != nil {
+						c19Chain(live).OnUpdate(rv.DeepCopy(), rv.DeepCopy())
+					} else {
+						live.onPodUpdate(old, cur)
+					}
+				}) {
 					h.Obs("panic")
 					liveSnap = &c19Snap{panicked: true, lines: []string{"panic"}}
 				} else {
@@ -369,8 +444,6 @@ func TestVerifC19DevAdapt(t *testing.T) {
 		if len(survivors) >= 2 {
 			h.Nontrivial()
 		}
-		w := &c19World{resv: map[int]*schedulingv1alpha1.Reservation{}, goneResv: map[int]*schedulingv1alpha1.Reservation{},
-			termResv: map[int]*schedulingv1alpha1.Reservation{}}
 		fresh1 := c19Replay(h, r, inv, apiServer, survivors, gone, w)
 		fresh2 := c19Replay(h, r, inv, apiServer, survivors, gone, w)
 		if d := c19FirstDiff(liveSnap.lines, fresh1.lines); d != "" {
@@ -409,7 +482,7 @@ func TestVerifC19DevAdapt(t *testing.T) {
 	}
 	h.Close("one node (1-4 GPUs of 4/8/16Gi, 0-1 RDMA), Device labelled with a GPU vendor in {none, unknown, huawei, huawei Ascend-310P3-300I-DUO, cambricon, metax}, " +
 		"feature gate DevicePluginAdaption on in 5/6 of the cases; 2-5 pods holding 1-2 GPU shares whose gpu-memory is un-aligned (MiB / odd bytes, below 256Mi, below 1Mi, rarely aligned), " +
-		"sometimes without gpu-core, with a GPUSharedResourceTemplate, with the HAMi-core label, plus an RDMA share; history of 3-10 steps on a REAL Plugin: " +
+		"sometimes without gpu-core, with a GPUSharedResourceTemplate, with the HAMi-core label, plus an RDMA share; 1/4 of the holders are Reservations (Reserve of the reserve pod, PreBindReservation writes on the Reservation object, events through the Reservation -> pod adapter); history of 3-10 steps on a REAL Plugin: " +
 		"Reserve + PreBind (adapters run; a refusing adapter or a still locked node makes PreBind fail AFTER the annotation was written -> Unreserve, the annotated object is retried later), " +
 		"Bind failure after PreBind (1/6), pod delete events (2/5 tombstones), own update events, the device plugin clearing the node lock; then two shuffled replays with duplicates into fresh caches. " +
 		"Oracle: persisted annotation == what Reserve accounted == what Unreserve gives back; rebuilt == live; nothing held is free; order irrelevant. non-trivial = >= 2 survivors")
